@@ -19,8 +19,9 @@ interleaving semantics of `Model/Lockset.lean` (exclusive locks):
 * `violation_realisable` : the criterion is tight — every triple the checker reports is an actual
   race of a two-thread program that follows `T` (so a reported pair is not excluded by the
   locking discipline; whether the real code exhibits it is what the TSan harness looks for).
-* `table_nodup`, `table_violations` : kernel evaluation of the checker on the table extracted
-  from the current sources (`Generated/C36.lean`); `C36_partial`, `C36_counterexamples`,
+* `table_keys`, `table_nodup`, `table_violations` : kernel evaluation of the checker (group by
+  group, `mem_violationsG`) on the table extracted from the current sources
+  (`Generated/C36.lean`); `table_violations_flat`, `C36_partial`, `C36_counterexamples`,
   `C36_full_iff` instantiate the general theorems on it.
 
 Trusted: that the extracted table over-approximates the accesses and under-approximates the
@@ -182,15 +183,23 @@ theorem violation_realisable {multi : List Role} {T : List Row} (hn : locksNodup
 
 /-! ### the table extracted from the current sources -/
 
-/-- the access table of the working tree (regenerated on every run) -/
-def table : List Row := toRows Gen.C36.tableRaw
+/-- the access table of the working tree (regenerated on every run; emitted grouped by location) -/
+def table : List Row := flattenG Gen.C36.groups
+
+theorem table_keys : keysNodup Gen.C36.groups = true := by decide +kernel
 
 theorem table_nodup : locksNodup table = true := by decide +kernel
 
-/-- kernel evaluation of the checker on the extracted table: exactly these (location, role pair)
-    triples have two conflicting rows without a common lock -/
-theorem table_violations : violations Gen.C36.multi table = Gen.C36.expectedViolations := by
+/-- kernel evaluation of the checker (group by group) on the extracted table: exactly these
+    (location, role pair) triples have two conflicting rows without a common lock -/
+theorem table_violations : violationsG Gen.C36.multi Gen.C36.groups = Gen.C36.expectedViolations := by
   decide +kernel
+
+/-- ... and these are, as a set, what the flat checker of the general theorems reports -/
+theorem table_violations_flat (v : Viol) :
+    v ∈ violations Gen.C36.multi table ↔ v ∈ Gen.C36.expectedViolations := by
+  rw [← table_violations]
+  exact (mem_violationsG table_keys).symm
 
 /-- C36, the part that holds: in every system whose threads follow the extracted table, two
     threads are simultaneously at conflicting accesses only on a listed (location, roles) triple. -/
@@ -198,9 +207,8 @@ theorem C36_partial {roleOf : Tid → Role} {s0 s : State}
     (ha : Admissible Gen.C36.multi table roleOf s0) (hr : Reach s0 s)
     {t u : Tid} {f : Field} {k1 k2 : Kind} (hne : t ≠ u)
     (h1 : At s t f k1) (h2 : At s u f k2) (hw : k1 = Kind.W ∨ k2 = Kind.W) :
-    (f, normPair (roleOf t) (roleOf u)) ∈ Gen.C36.expectedViolations := by
-  rw [← table_violations]
-  exact lockset_sound_except ha hr hne h1 h2 hw
+    (f, normPair (roleOf t) (roleOf u)) ∈ Gen.C36.expectedViolations :=
+  (table_violations_flat _).mp (lockset_sound_except ha hr hne h1 h2 hw)
 
 /-- C36, the part that fails (the known findings): every listed triple is a race of a system that
     follows the extracted table. -/
@@ -208,13 +216,12 @@ theorem C36_counterexamples {v : Viol} (hv : v ∈ Gen.C36.expectedViolations) :
     ∃ a b, a ∈ table ∧ b ∈ table ∧ v = (a.field, normPair a.role b.role) ∧
       Admissible Gen.C36.multi table (pairRole a b) (pairInit a b) ∧
       ∃ s, Reach (pairInit a b) s ∧
-        At s 0 a.field a.kind ∧ At s 1 a.field b.kind ∧ (a.kind = Kind.W ∨ b.kind = Kind.W) ∧ Race s := by
-  rw [← table_violations] at hv
-  exact violation_realisable table_nodup hv
+        At s 0 a.field a.kind ∧ At s 1 a.field b.kind ∧ (a.kind = Kind.W ∨ b.kind = Kind.W) ∧ Race s :=
+  violation_realisable table_nodup ((table_violations_flat v).mpr hv)
 
 /-- the full property holds of the extracted table exactly when nothing is listed -/
 theorem C36_full_iff : Premise Gen.C36.multi table ↔ Gen.C36.expectedViolations = [] := by
-  rw [← table_violations]
+  rw [← table_violations, violationsG_nil_iff table_keys]
   exact premise_iff.symm
 
 /-! ### non-vacuity -/
